@@ -12,6 +12,7 @@ import (
 
 	pb "github.com/xuperchain/xupercore/bcs/ledger/xledger/xldgpb"
 
+	"github.com/xuperchain/xupercore/verifshim/vhook"
 	"verif/core"
 	"verif/engine/vkv"
 	"verif/world"
@@ -555,9 +556,60 @@ type SnapshotOracle struct {
 	viol []core.Violation
 }
 
-func liveAnswers(i *Inst) map[string]string {
+// referenceAnswers is what the live reader returns on a fresh node that received
+// exactly the chain genesis..bn and walked to bn: the oracle's "when B was the
+// tip", as a function of B alone (the node under test may never have rested at
+// B with an empty pool, and which histories did is not part of the state key).
+// Memoised per universe and block id; nil when a fresh node refuses the chain.
+var (
+	refAnsMu sync.Mutex
+	refAns   = map[string]map[string]string{}
+)
+
+func referenceAnswers(i *Inst, bn string) map[string]string {
+	key := i.U.Name + "/" + string(i.ID(bn))
+	refAnsMu.Lock()
+	a, ok := refAns[key]
+	refAnsMu.Unlock()
+	if ok {
+		return a
+	}
+	var out map[string]string
+	func() {
+		r := i.U.NewWorld()
+		defer r.Drop()
+		defer func() {
+			r.State.Close()
+			r.Ledger.Close()
+		}()
+		for _, n := range i.Chain(bn) {
+			if n == "g" {
+				continue
+			}
+			if ok, _ := r.Recv(i.Block(n)); !ok {
+				return
+			}
+		}
+		if bn != "g" {
+			err := r.State.Walk(i.ID(bn), false)
+			vhook.Drain()
+			if err != nil {
+				return
+			}
+		}
+		out = liveAnswersOn(i, r)
+	}()
+	refAnsMu.Lock()
+	refAns[key] = out
+	refAnsMu.Unlock()
+	return out
+}
+
+func liveAnswers(i *Inst) map[string]string { return liveAnswersOn(i, i.W) }
+
+func liveAnswersOn(i *Inst, w *world.World) map[string]string {
 	out := map[string]string{}
-	rd := i.W.State.CreateXMReader()
+	rd := w.State.CreateXMReader()
 	for _, k := range KVKeys {
 		v, err := rd.Get(world.VKVBucket, []byte(k))
 		if err != nil {
@@ -600,9 +652,12 @@ func (o *SnapshotOracle) Check(i *Inst, hist []string) []core.Violation {
 	chainNames := i.Chain(ptr)
 	sort.Strings(chainNames)
 	for _, bn := range chainNames {
-		rec, ok := o.rec[bn]
-		if !ok {
-			continue
+		rec := referenceAnswers(i, bn)
+		if rec == nil {
+			var ok bool
+			if rec, ok = o.rec[bn]; !ok {
+				continue
+			}
 		}
 		snap, err := i.W.State.CreateSnapshot(i.ID(bn))
 		sr, err2 := i.W.State.CreateXMSnapshotReader(i.ID(bn))
@@ -637,7 +692,11 @@ func (o *SnapshotOracle) Check(i *Inst, hist []string) []core.Violation {
 		}
 	}
 	// the tip snapshot never exposes pending writes
-	if rec, ok := o.rec[ptr]; ok {
+	rec := referenceAnswers(i, ptr)
+	if rec == nil {
+		rec = o.rec[ptr]
+	}
+	if rec != nil {
 		tr, err := i.W.State.GetTipXMSnapshotReader()
 		if err != nil {
 			out = append(out, core.Violation{Key: "c18.tip_create_failed", Summary: err.Error()})
